@@ -7,6 +7,8 @@ from .. import paths, waiters
 from ..core import FUNC, call_attr, calls_in, const, dotted, is_const, kwarg, norm, text, walk_local
 
 EXPLANATION = [
+    'C13.distribution-order: every distribute_keys() call of smp.Session is guarded by the pairing role (self.is_responder / self.is_initiator), never by the link-layer role.',
+    'C13.store-condition: Manager.on_pairing stores the keys under no other condition than the presence of a key store and of an identity address.',
     'C13.stk-identifiers: the initial values of Session.ltk_rand / ltk_ediv equal the Rand / EDIV that start_encryption sends with the STK, and get_long_term_key compares the request with exactly those attributes.',
     'C13.encrypt-source: the long-term key Device.encrypt puts into LE Enable Encryption is assigned only from the key-store record of the peer (keys.ltk*.value); pairing sessions are not consulted there.',
     'C13.uncalled-predicate: done / cancelled / is_set / locked / empty used as truth values are called (a bound method is always true).',
@@ -852,7 +854,47 @@ def stk_identifiers(ctx):
     R.check(cmp_ok, rule, f'{S}.get_long_term_key | STK request recognised', 'the requested rand / ediv are compared with self.ltk_rand / self.ltk_ediv', 'the STK request is no longer recognised by its Rand / EDIV', p.loc(gl))
 
 
+def store_condition(ctx):
+    """Whatever a pairing produced is stored: Manager.on_pairing saves the keys whenever there is a key store and an identity
+    address - no filter on which keys are present (a filter that forgets one slot, e.g. a peripheral-only legacy LTK, drops
+    the bond)."""
+    R, p = ctx.r, ctx.p
+    rule = 'C13.store-condition'
+    fn = p.find('bumble.smp.Manager.on_pairing')
+    if fn is None:
+        R.bad(rule, 'bumble.smp.Manager.on_pairing', 'anchor missing')
+        return
+    ups = [c for c in calls_in(fn) if call_attr(c) == 'update_keys']
+    R.check(len(ups) == 1, rule, 'bumble.smp.Manager.on_pairing | store', 'one update_keys call', f'{len(ups)} update_keys calls', p.loc(fn))
+    for c in ups:
+        extra = [norm(t) for t, pol in paths.flat_guards(c, stop=fn) if not ('keystore' in norm(t) or 'identity_address' in norm(t))]
+        R.check(not extra, rule, 'bumble.smp.Manager.on_pairing | condition', 'stored whenever there is a key store and an identity address', f'the keys are stored only if `{extra[0] if extra else ""}` also holds: a pairing whose result does not satisfy that extra test is not persisted, and the peers cannot re-encrypt after a reconnection', p.loc(c))
+
+
+def distribution_order(ctx):
+    """Who distributes keys first is decided by the pairing role (is_responder / is_initiator), which is what the Pairing
+    Request / Response exchange fixed - not by the link-layer role, which differs from it when the peripheral... when the
+    pairing runs over BR/EDR or was started by the other side."""
+    R, p = ctx.r, ctx.p
+    rule = 'C13.distribution-order'
+    ci = p.cls(S)
+    if ci is None:
+        R.bad(rule, S, 'anchor missing')
+        return
+    n = 0
+    for name, fn in sorted(ci.methods.items()):
+        for c in [x for x in calls_in(fn) if dotted(x.func) == 'self.distribute_keys']:
+            n += 1
+            g = [(norm(t), pol) for t, pol in paths.flat_guards(c, stop=fn)]
+            by_pairing_role = any(t in ('self.is_responder', 'self.is_initiator') and pol for t, pol in g)
+            by_link_role = [t for t, pol in g if '.role' in t]
+            R.check(by_pairing_role and not by_link_role, rule, f'{S}.{name} | distribute_keys', 'decided by the pairing role', f'{name} distributes keys depending on `{by_link_role[0] if by_link_role else [t for t, _ in g]}` rather than on is_responder / is_initiator: when the link-layer role and the pairing role differ both sides wait for the other\'s keys (or both send first) and the pairing never completes', p.loc(c))
+    R.check(n >= 3, rule, f'{S} | distribute_keys calls', f'{n}', f'only {n} found')
+
+
 RULES = [
+    ('C13.distribution-order', distribution_order),
+    ('C13.store-condition', store_condition),
     ('C13.stk-identifiers', stk_identifiers),
     ('C13.encrypt-source', encrypt_source),
     ('C13.uncalled-predicate', uncalled_predicate_rule),
